@@ -53,6 +53,29 @@ CHECKS.update({
         note='trusts the tables of mutating/aliasing/copying library calls in sa/effects.py; the heap abstraction is field-insensitive beyond one access path (over-approximate for mutation)', ref='3 C09'),
 })
 
+CHECKS.update({
+    'C11': dict(
+        level='other', technique='abstract interpretation of the propagation kernels; edge-loop idiom recognition and CFG rules for the clipping code; exactness evaluation of the interpolation expression',
+        text='Static necessary conditions: propagation is the shear t+d*lambda*m_n/h (two steps = one step algebraically); _chop has the Sutherland-Hodgman shape with inclusive half-planes and closing edge; Frame.chop clips every subframe by every window with both half-planes, no early exit; choppers are sorted by distance and lookup by distance takes the last frame not beyond it; the wavelength interpolation is bit-exact for equal endpoints (consumed by an == test).',
+        note='point-in-polygon <=> transmitted is runtime geometry and not decided', ref='3 C11'),
+    'C15': dict(
+        level='other', technique='CFG/dominator rules for refusals; call-site argument rules for savetxt/loadtxt; finite decision table of the coordinate deduction',
+        text='Static: number format keeps >=17 significant digits, same delimiter on both sides, comments not overridden, header through savetxt; columns X,Y,E written/read consistently with sqrt/square; each refusal guards every path to savetxt; one-row guard dominates indexing; coordinate deduction folded over its decision space.',
+        note='round-trip of %.18e through numpy/C is trusted', ref='3 C15'),
+    'C17': dict(
+        level='other', technique='statement CFG with dominators (guard-before-use, all-checks-before-success); normalised-statement tables for statistics and windows; effect summary for remove_peaks',
+        text='Static: the point-count guard guards every consumer of the window data; success only after every requirement check; near-edge precedes neighbour indexing; one result per estimate in order, first success wins; statistics and window construction equal the documented expressions; remove_peaks copies first, skips unsuccessful fits, subtracts eval_peak on the window slice, writes nothing to its input.',
+        note='optimiser outcomes and third-party exceptions not decided', ref='3 C17'),
+    'C19': dict(
+        level='other', technique='abstract interpretation of _derive/_next_highest/_is_approximate_multiple; statement patterns for find_plateaus/collapse_plateaus; effect summaries',
+        text='Static (thin): slope term and dtype discipline; strict exceed mask in slope units; cumulative group id with leading 0; size filter >=; collapse = [min, next-above-max); in-phase predicate and filter; no argument written.',
+        note='maximality/completeness of runs are runtime sequence properties and not decided', ref='3 C19'),
+    'C20': dict(
+        level='other', technique='table lint of the bundled CSV files; structural rules on the loaders; finite evaluation of the constant name pattern; abstract interpretation of _assemble_scalar and the attenuation formula',
+        text='Static: exact-match lookup; header lines skipped = leading non-data lines; NIST column/unit mapping; blank -> None, variance = uncertainty^2 (0 stays 0); tables have constant width, unique keys, numeric-or-blank cells (371+118+3557 rows, complete); name pattern = digits* letters+ anchored; attenuation = n*(sigma_s + sigma_a*lambda/1.7982 A) without integer truncation.',
+        note='float(text) == tabulated decimal is Python and not decided', ref='3 C20'),
+})
+
 NA_REASON = 'check not built yet (planned: see DESIGN.md section 3)'
 
 
